@@ -1,14 +1,17 @@
 // C10: run a small communicating program on a C++-built platform, optionally turning one host or link off at a
 // given date, and print what every actor observed.  One process = one run.  Input: one line of integers
-//   nf (fk fid T)*nf H A  then per actor:  host nops (code x y)*
-//   nf faults in date order: fk 1 = host fid, 2 = link fid; T = fault date (bit pattern of the double); H hosts (+ a control host)
+//   nf (fk fid T)*nf H LAT TOPO A  then per actor:  host nops (code x y)*
+//   nf control actions in date order: fk 1 = host fid off, 2 = link fid off, 3 = suspend actor fid, 4 = resume actor fid;
+//   T = date (bit pattern of the double); H hosts (+ a control host); LAT = latency of every link, in ticks of 2^-12 s;
+//   TOPO 0 = one link per host pair, 1 = plus a backbone link (id = number of pairs) that every route also crosses
 //   ops: 1 mb dur  put on mailbox mb, dur*256 bytes (1 MiB/s links: dur ticks) | 2 mb 0  get | 3 dur 0  exec on own host
 //        4 dur 0  sleep | 5 h dur  exec on host h (waited from here)
-// Links: one per host pair i<j, id = rank in lexicographic order; route i<->j = that link only. CM02, no latency.
+// Links: one per host pair i<j, id = rank in lexicographic order; route i<->j = that link (+ the backbone). CM02.
 // Output (one line): S i k date (op k of actor i starts) | D i k date (done) | E i k date kind (1 NetworkFailure,
 //   2 HostFailure, 3 other simgrid exception) | X i date failed (on_exit) | F date, then the kernel's view right before
-//   the resource goes off: W i kind src dst nl links.. (kind 0 not blocked, 1 sleep, 2 exec, 3 comm not matched,
-//   4 comm matched/running; src/dst = hosts of the activity) | L date (deadlock) + B i kind src dst nl links.. | T date
+//   the resource goes off: W i kind src dst susp nl links.. (kind 0 not blocked, 1 sleep, 2 exec, 3 comm not matched,
+//   4 comm matched/running; src/dst = hosts of the activity; susp = the actor is suspended) | U i date (actor i
+//   suspended by the control actor) | R i date (resumed) | L date (deadlock) + B i kind src dst susp nl links.. | T date
 #include "drv.hpp"
 #include <array>
 #include <cstdarg>
@@ -55,29 +58,30 @@ static void describe(const char* tag)
 {
   for (size_t i = 0; i < impls.size(); i++) {
     auto* a = impls[i];
+    int susp = a != nullptr && a->is_suspended() ? 1 : 0;
     if (a == nullptr || a->wannadie() || a->waiting_synchros_.empty()) {
-      put("%s %zu 0 -1 -1 0 ", tag, i);
+      put("%s %zu 0 -1 -1 %d 0 ", tag, i, susp);
       continue;
     }
     auto* act = a->waiting_synchros_.front().get();
     if (auto* c = dynamic_cast<ka::CommImpl*>(act)) {
       bool running = c->get_state() == ka::State::RUNNING || c->get_state() == ka::State::READY;
       if (!running) {
-        put("%s %zu 3 -1 -1 0 ", tag, i);
+        put("%s %zu 3 -1 -1 %d 0 ", tag, i, susp);
       } else {
         auto ls = c->get_traversed_links();
-        put("%s %zu 4 %d %d %zu ", tag, i, host_id(c->get_source()), host_id(c->get_destination()), ls.size());
+        put("%s %zu 4 %d %d %d %zu ", tag, i, host_id(c->get_source()), host_id(c->get_destination()), susp, ls.size());
         for (auto* l : ls)
           for (size_t k = 0; k < links.size(); k++)
             if (links[k] == l)
               put("%zu ", k);
       }
     } else if (auto* e = dynamic_cast<ka::ExecImpl*>(act)) {
-      put("%s %zu 2 %d -1 0 ", tag, i, host_id(e->get_host()));
+      put("%s %zu 2 %d -1 %d 0 ", tag, i, host_id(e->get_host()), susp);
     } else if (auto* s = dynamic_cast<ka::SleepImpl*>(act)) {
-      put("%s %zu 1 %d -1 0 ", tag, i, host_id(a->get_host()));
+      put("%s %zu 1 %d -1 %d 0 ", tag, i, host_id(a->get_host()), susp);
     } else {
-      put("%s %zu 0 -1 -1 0 ", tag, i);
+      put("%s %zu 0 -1 -1 %d 0 ", tag, i, susp);
     }
   }
 }
@@ -99,21 +103,27 @@ int main(int argc, char** argv)
   std::vector<std::array<long long, 3>> faults;
   for (int i = 0; i < nf; i++)
     faults.push_back({v.at(1 + 3 * i), v.at(2 + 3 * i), v.at(3 + 3 * i)});
-  int H = (int)v.at(1 + 3 * nf), A = (int)v.at(2 + 3 * nf);
+  int H = (int)v.at(1 + 3 * nf), LAT = (int)v.at(2 + 3 * nf), TOPO = (int)v.at(3 + 3 * nf), A = (int)v.at(4 + 3 * nf);
   auto* zone = e.get_netzone_root()->add_netzone_full("z");
   for (int i = 0; i < H; i++)
     hosts.push_back(zone->add_host("h" + std::to_string(i), SP));
   auto* ctl = zone->add_host("ctl", SP);
+  sg4::Link* bb = TOPO == 1 ? zone->add_link("bb", SP)->set_latency(LAT * tick) : nullptr;
   for (int i = 0; i < H; i++)
     for (int j = i + 1; j < H; j++) {
-      auto* l = zone->add_link("l" + std::to_string(i) + "_" + std::to_string(j), SP)->set_latency(0);
+      auto* l = zone->add_link("l" + std::to_string(i) + "_" + std::to_string(j), SP)->set_latency(LAT * tick);
       links.push_back(l);
-      zone->add_route(hosts[i], hosts[j], {l});
+      if (bb != nullptr)
+        zone->add_route(hosts[i], hosts[j], std::vector<const sg4::Link*>{l, bb});
+      else
+        zone->add_route(hosts[i], hosts[j], {l});
     }
+  if (bb != nullptr)
+    links.push_back(bb);
   zone->seal();
   e.get_netzone_root()->seal();
 
-  size_t p = 3 + 3 * nf;
+  size_t p = 5 + 3 * nf;
   impls.assign(A, nullptr);
   for (int i = 0; i < A; i++) {
     int h    = (int)v.at(p);
@@ -157,6 +167,14 @@ int main(int argc, char** argv)
         memcpy(&T, &bits, sizeof T); // the date is passed as the bit pattern of a double
         sg4::this_actor::sleep_until(T);
         long long fk = f[0], fid = f[1];
+        if (fk == 3 || fk == 4) {
+          put("%s %lld %a ", fk == 3 ? "U" : "R", fid, sg4::Engine::get_clock());
+          if (fk == 3)
+            keep.at(fid)->suspend();
+          else
+            keep.at(fid)->resume();
+          continue;
+        }
         simgrid::kernel::actor::simcall_answered([fk, fid] {
           put("F %a ", sg4::Engine::get_clock());
           describe("W");
